@@ -188,7 +188,7 @@ class Spec(PropSpec):
     props_file = "C09.v"
     theorems = ["c09_reachable_wf", "c09_routes_sound", "c09_at_most_once", "c09_routes_complete", "c09_exact",
                 "c09_drop_isolated", "c09_membership_at_send_time", "c09_clip", "c09_readable_keeps_order",
-                "c09_sound", "c09_sent_log", "c09_membership", "c09_consts", "c09_nonvacuous"]
+                "c09_sound", "c09_received_at_most_once", "c09_sent_log", "c09_membership", "c09_consts", "c09_nonvacuous"]
     consts = CONSTS
     anchors = ANCHORS
     harness_bins = ["udp"]
